@@ -36,6 +36,7 @@ from vf.refs import modes as ref_modes
 from vf.refs import rsa as ref_rsa
 
 ID = "C07"
+DECOY_CWD = True  # the worker runs in a directory that holds other content under every input file name (vf/worker.py)
 LEVEL = "exploration"
 TECHNIQUE = ("runtime monitoring: independent HAB4 walker + CSF replay (asn1crypto decoding, pure-Python RSA/ECDSA/AES-CCM) "
              "over images built by the real HabContainer code and CLI")
@@ -723,26 +724,12 @@ def _viol(ctx, p: Plan, mech: str, **detail):
     ctx.violation(mech, d)
 
 
-_DECOY: list = []
-
-
 def run_case(case, ctx):  # noqa: C901
     from spsdk.exceptions import SPSDKError
     from spsdk.image.hab.hab_container import HabContainer
 
     wd = os.path.join(ctx.workdir, f"c{ctx.case_index}")
     os.makedirs(wd, exist_ok=True)
-    if not _DECOY:
-        # the working directory of this worker process is a decoy: it holds a file for every relative name a configuration
-        # uses, with other content.  The files of a build are those of its project (the search paths), wherever it is started
-        d = os.path.join(os.path.abspath(ctx.workdir), "decoy_cwd")
-        for sub in ("", "crts", "keys"):
-            os.makedirs(os.path.join(d, sub), exist_ok=True)
-        for name in ("app.bin", "dcd.bin", "dek.bin", "nonce.bin", "srk_table.bin", "xmcd.bin"):
-            with open(os.path.join(d, name), "wb") as f:
-                f.write(bytes([0xDE, 0xC0, 0x1E, 0x00]) * 0x80)
-        os.chdir(d)
-        _DECOY.append(d)
     p = draw_plan(case, ctx)
     p.form_abs = case["kind"] == "cli" or ctx.rng.random() < 0.3  # absolute certificate / key paths in the configuration
     cfg = build_inputs(p, ctx, wd)
